@@ -201,8 +201,7 @@ def run(case):
             # known finding: a Quantity coordinate of two tables on two axes cannot be resampled to axes of different lengths
             a, b = ec2["axes"]
             lens = [[shape[a] // (case["pre_arg"][a] if case["pre"] == "rebinned" else 1), shape[b] // (case["pre_arg"][b] if case["pre"] == "rebinned" else 1)]]
-            if src is not cube or case["pre"] != "rebinned":
-                lens.append([src.data.shape[a] // bins[a], src.data.shape[b] // bins[b]])
+            lens.append([src.data.shape[a] // bins[a], src.data.shape[b] // bins[b]])
             if any(x != y for x, y in lens):
                 finding = "q2-grid-shapes"
         if ec2 and ec2["k"] == "sky2" and isinstance(e, ValueError):
@@ -257,6 +256,23 @@ def run(case):
             cor.append([p[a] for p in _base_pixels(rll, nd, vs, base)])
         out.update({"aff": aff, "centres": cen, "corners": cor})
     # ---- coupled extra coords: through the mapping, output element j reports the source's value at its block centre
+    if ec2 and ec2["k"] == "wcsec" and case["pre"] == "plain":
+        # observations for the model: world values the rebinned cube's extra coords report at a few output elements
+        try:
+            rl = r.extra_coords.wcs.low_level_wcs
+            rm = [int(m) for m in r.extra_coords.mapping]
+            obs = []
+            import itertools
+            for E in itertools.islice(itertools.product(*[sorted({0, n - 1}) for n in nout]), 8):
+                w = rl.pixel_to_world_values(*[float(E[nd - 1 - m]) for m in rm])
+                w = [w] if rl.world_n_dim == 1 else list(w)
+                obs.append([[Fr(int(x)) for x in E], [Fr(float(x)) for x in w]])
+            P = [1, 2, 3, 5, 7, 11, 13, 17, 19]
+            A = [[P[(3 * r_ + c) % len(P)] * x for c, x in enumerate(row)] for r_, row in enumerate(ec2["mat"])]
+            out["ec"] = {"n": nd, "pm": list(ec2["mapping"]), "A": [[Fr(x) for x in row] for row in A],
+                         "b": [Fr(1000 * (k + 1)) for k in range(len(A))], "obs": obs}
+        except Exception:  # noqa
+            pass            # (the direct oracle below reports what cannot be evaluated)
     if ec2:
         f = _coupled_fail(src, r, bins, nout)
         if f:
@@ -342,4 +358,11 @@ def coq_case(case, res):
     for t in (o.get("tabs") or []):
         tabs.append(f"(mkTab {Q.lst([_cq(v) for v in t['vals']])} (({t['len']}) # 1) (({t['f']}) # 1) {Q.b(t['rel'])} "
                     f"{_cq(t['tol'])} {Q.lst(['(Some ' + _cq(v) + ')' for v in t['impl']])})")
-    return f"mk {fs} {aff} {nout} {cen} {cor} {Q.lst(tabs)}"
+    ecs = []
+    e = o.get("ec") if o["t"] != "err" else None
+    if e:
+        efs = Q.lst([f"(({b}) # 1)" for b in o["fs"]])
+        obs = Q.lst([Q.tup(Q.lst([_cq(x) for x in E]), Q.lst([_cq(x) for x in w])) for E, w in e["obs"]])
+        ecs.append(f"(mkEc {Q.nat(e['n'])} {Q.lst(e['pm'], Q.nat)} {efs} {Q.lst([Q.lst([_cq(x) for x in row]) for row in e['A']])} "
+                   f"{Q.lst([_cq(x) for x in e['b']])} {obs})")
+    return f"mk {fs} {aff} {nout} {cen} {cor} {Q.lst(tabs)} {Q.lst(ecs)}"
